@@ -12,7 +12,17 @@ package builder
 
 //@ func executeResponseIsSuccessful
 //@   props C09
+//@   inline
 //@   ensures ok-status-and-exit-code-zero: r0 == (ufb("statusok", response.Status) && response.Result.ExitCode == 0)
+
+// Classifying a worker's response never crashes the scheduler, whatever the
+// worker sent: in particular a response with an OK status and no ActionResult
+// (C02: the waiters of the task still have to get that response).
+//@ func GetResultAndGRPCCodeFromExecuteResponse
+//@   props C02
+//@   requires response != nil
+//@   safety nil
+//@   ensures every-response-is-classified: r0 != ""
 
 // The first error wins and an attached error makes the response non-OK.
 //@ func attachErrorToExecuteResponse
